@@ -207,6 +207,23 @@ impl Ctx {
                 self.out.case("", &[], &["inline-bit".into(), hx(&msg), bit.to_string()], "reject", Some(true), &format!("{cls}-rejected"));
             }
         }
+        // type confusion: the reader takes its hashing mode from the one-pass header. A binary signature relabelled as text in
+        // the header (and the reverse), with the payload's line endings rewritten so that the text-mode digest of the new
+        // payload equals the binary digest of the old one, must not verify
+        {
+            let split = |b: &[u8]| -> Vec<Vec<u8>> { let mut v = Vec::new(); let mut d = b; while d.len() >= 2 && d[0] & 0xC0 == 0xC0 { let (hl, bl) = match d[1] { x @ 0..=191 => (2usize, x as usize), x @ 192..=223 if d.len() >= 3 => (3, ((x as usize - 192) << 8) + d[2] as usize + 192), 255 if d.len() >= 6 => (6, u32::from_be_bytes([d[2], d[3], d[4], d[5]]) as usize), _ => break }; if d.len() < hl + bl { break; } v.push(d[..hl + bl].to_vec()); d = &d[hl + bl..]; } v };
+            let pkts = split(&msg);
+            if pkts.len() == 3 && pkts[0][0] & 0x3f == 4 && pkts[1][0] & 0x3f == 11 && data.windows(2).any(|w| w == b"\r\n") && !data.iter().enumerate().any(|(i, b)| (*b == b'\n' && (i == 0 || data[i - 1] != b'\r')) || (*b == b'\r' && data.get(i + 1) != Some(&b'\n'))) {
+                // payload with CR LF endings only: its LF-only spelling has the same text-mode digest
+                let lf: Vec<u8> = { let mut o = Vec::new(); let mut i = 0; while i < data.len() { if data[i] == b'\r' && data.get(i + 1) == Some(&b'\n') { i += 1; continue; } o.push(data[i]); i += 1; } o };
+                let hl = if pkts[0][1] < 192 { 2 } else { 3 };
+                let mut ops = pkts[0].clone(); ops[hl + 1] ^= 1;          // type octet: binary <-> text
+                let lit = { let mut b = vec![if text { b'u' } else { b'b' }, 0, 0, 0, 0, 0]; b.extend_from_slice(&lf); let mut p = vec![0xCB]; let n = b.len(); if n < 192 { p.push(n as u8); } else { p.push(((n - 192) >> 8) as u8 + 192); p.push(((n - 192) & 0xff) as u8); } p.extend(b); p };
+                let forged = [ops, lit, pkts[2].clone()].concat();
+                let (acc, out) = check(&forged);
+                self.out.case("", &[], &["inline-type-confusion".into(), hx(&forged)], &format!("accepted={} payload-read={}", acc as u8, hx(&out[..out.len().min(40)])), Some(!acc || out == data), &format!("{cls}-type-confusion"));
+            }
+        }
         // the trailing Signature packet of the one-pass form: every bit of its signed fields
         // (version, type, algorithms, hashed area, digest prefix, salt) must matter, although
         // the running digest was set up from the One-Pass Signature packet in front
@@ -471,6 +488,7 @@ fn main() {
         if i < 3 || thorough {
             cx.inline(key, false, b"inline payload 123", &format!("inline-bin-{name}"));
             cx.inline(key, true, b"text\npayload\r\n", &format!("inline-text-{name}"));
+            cx.inline(key, false, b"line one\r\nline two\r\n", &format!("inline-bin-crlf-{name}"));
         }
     }
     cx.certificate(&gen_key_with_subkey(KeyVersion::V4, 210), "cert-v4");
